@@ -5,6 +5,7 @@ import Driver.C03
 import Driver.C10
 import Driver.C12
 import Driver.C13
+import Driver.C14
 import Driver.C15
 import Driver.C16
 import Driver.C18
@@ -20,6 +21,7 @@ def dispatch (id : String) : Option Handler :=
   | "C10" => some Driver.C10.handle
   | "C12" => some Driver.C12.handle
   | "C13" => some Driver.C13.handle
+  | "C14" => some Driver.C14.handle
   | "C15" => some Driver.C15.handle
   | "C16" => some Driver.C16.handle
   | "C18" => some Driver.C18.handle
